@@ -448,13 +448,11 @@ func hooksC13() Hooks {
 				}
 			}
 		}
-		if l := segLayout(r.Dir); len(l) > 0 {
-			if st, err := os.Stat(filepath.Join(r.Dir, fmt.Sprintf("%020d.index", l[len(l)-1].Base))); err == nil {
-				r.Ctx["head_index_size"] = st.Size()
-			} else {
-				r.Ctx["head_index_size"] = int64(0)
-			}
-		}
+		noteHeadIndexSize(r)
+	}
+	h.Refresh = func(r *Run) {
+		r.Ctx["layout"] = segLayout(r.Dir)
+		noteHeadIndexSize(r)
 	}
 	h.OnOp = func(r *Run, op *Op) bool {
 		if op.K != "foreign" {
@@ -464,6 +462,16 @@ func hooksC13() Hooks {
 		return true
 	}
 	return h
+}
+
+func noteHeadIndexSize(r *Run) {
+	if l := segLayout(r.Dir); len(l) > 0 {
+		if st, err := os.Stat(filepath.Join(r.Dir, fmt.Sprintf("%020d.index", l[len(l)-1].Base))); err == nil {
+			r.Ctx["head_index_size"] = st.Size()
+		} else {
+			r.Ctx["head_index_size"] = int64(0)
+		}
+	}
 }
 
 // foreignSegment closes the log, lets the reference encoder append messages to the
